@@ -81,6 +81,9 @@ class GuardRun:
 
     def op_sexp(self, c):
         if c.op == "from_str":
+            if c.decl.family() == "int":
+                # integer texts are parsed by the model itself (Sem/Text.parse_int)
+                return "(from_str_t %s)" % c.arg
             return "(from_str %s)" % (c.oracle if c.oracle else "none")
         if c.op in ("de", "de_json", "de_ron", "de_mp", "de_self", "de_seq1"):
             return "(de %s)" % (c.oracle if c.oracle and c.oracle != "-" else "none")
